@@ -200,3 +200,86 @@ contract("toasty.toast.sample_layer")(lambda c: (c.cases(*SL_CASES), c.setup(_sl
 contract("toasty.toast.sample_layer_filtered")(lambda c: (c.cases(*SL_CASES), c.setup(_sl_setup(True)), c.on_path(_sl_trace(True)),
                                                           c.requires("depth >= 0", name="depth_is_a_level"),
                                                           c.may_raise("CallbackError", ""), c.may_raise("WorkerFailedError", "")))
+
+
+# ---- C05, depth 0: the grid of the single level-0 tile is assembled from the four level-1 tiles ---------------------
+# Pixel (row, col) of the level-0 grid must be the centre of tile (8, col, row).  The level-1 tile (1, tx, ty) covers
+# rows 128*ty .. 128*ty+127 and columns 128*tx .. 128*tx+127 of it, and the centres of ITS descendants seven levels
+# down (= level 8) are, by the contract of the compiled subdivision, subsample(corners, 128, increasing)[r, c].
+from . import toastgeom as _tg  # noqa: E402
+
+
+def level0_setup(interp, path):
+    return {"coordsys": _tg._cs(interp._case)}
+
+
+def level0_trace(m, path, fr, env, outcome, value, exc):
+    name = m.oblname("level0_grid_is_the_four_level1_subdivisions_at_half_resolution_each_in_its_own_quadrant")
+    if outcome != "return":
+        return
+    subs = [e for e in path.events if e[0] == "subsample"]
+    ok = (isinstance(value, tuple) and len(value) == 2 and all(isinstance(v, NdArr) for v in value) and len(subs) == 4
+          and all(len(e[1]) == 6 and e[1][4] == 128 for e in subs))
+    if not ok:
+        path.oblige(name, z3.BoolVal(False), kind="trace", assume_after=False)
+        return
+    lons, lats = value
+    shape_ok = tuple(lons.shape) == (256, 256) and tuple(lats.shape) == (256, 256)
+    path.oblige(m.oblname("level0_grid_is_256_by_256"), z3.BoolVal(bool(shape_ok)), kind="trace", assume_after=False)
+    # the four level-1 tiles, as the real table gives them for this coordinate system
+    tiles = m.spec_value("_create_level1_tiles(coordsys)", fr.entry_env)
+    seen = set()
+    goals = []
+    for t in tiles.items:
+        pos = t.get("pos")
+        tx, ty = pos.get("x"), pos.get("y")
+        if not (isinstance(tx, int) and isinstance(ty, int)):
+            path.oblige(name, z3.BoolVal(False), kind="trace", assume_after=False)
+            return
+        mine = [e for e in subs if _tg_same_corners(m, e[1][:4], t.get("corners")) and _tg_same(e[1][5], t.get("increasing"))]
+        if len(mine) != 1:
+            path.oblige(name, z3.BoolVal(False), kind="trace", assume_after=False,
+                        info={"why": "no subdivision of the level-1 tile (%s,%s) with its own corners and orientation" % (tx, ty)})
+            return
+        seen.add((tx, ty))
+        qlon, qlat = mine[0][2], mine[0][3]
+        r, c = z3.Int(fresh_name("r")), z3.Int(fresh_name("c"))
+        rng = z3.And(0 <= r, r < 128, 0 <= c, c < 128)
+        a, b = lons.at((128 * ty + r, 128 * tx + c)), qlon.at((r, c))
+        a2, b2 = lats.at((128 * ty + r, 128 * tx + c)), qlat.at((r, c))
+        goals.append(z3.Implies(rng, z3.And(a.nan == b.nan, a.val == b.val, a2.nan == b2.nan, a2.val == b2.val)))
+    path.oblige(name, z3.And(z3.BoolVal(seen == {(0, 0), (1, 0), (0, 1), (1, 1)}), *goals), kind="trace", assume_after=False)
+
+
+def _tg_same(a, b):
+    if isinstance(a, bool) or isinstance(b, bool):
+        return a is b or a == b
+    return a is b or (hasattr(a, "eq") and hasattr(b, "eq") and a.eq(b))
+
+
+def _tg_same_corners(m, got, want):
+    """the four corner arguments are exactly the tile's own corners, in order"""
+    try:
+        for k in range(4):
+            g, w = got[k], m.getitem(want, k)
+            if g is w:
+                continue
+            if isinstance(g, NdArr) and isinstance(w, NdArr):
+                # rows of the level-1 table: compare the two coordinates
+                for j in range(2):
+                    x, y = g.at((j,)), w.at((j,))
+                    xv, yv = getattr(x, "val", x), getattr(y, "val", y)
+                    if not z3.is_true(z3.simplify(z3num(xv) == z3num(yv))):
+                        return False
+                continue
+            return False
+        return True
+    except Exception:
+        return False
+
+
+@contract("toasty.toast._level0_tile_get_coords")
+def _(c):
+    c.cases(*_tg.L1_CASES)
+    c.setup(level0_setup)
+    c.on_path(level0_trace)
